@@ -595,6 +595,154 @@ fn stale_merge_case(case: u64, rng: &mut Rng, rep: &mut Report) {
     }
 }
 
+/// Forced schedule: the merge reaches `end_merge` while a commit (carrying a delete that hits the
+/// merged documents) is executing on the segment-updater thread; the end of the merge is queued
+/// behind it and has to reconcile the merged segment with THAT commit.
+fn merge_ends_during_commit_case(case: u64, rng: &mut Rng, rep: &mut Report) {
+    let cfg = ExecCfg { threads: 1, merge_policy: false, sort: None, budget_per_thread: 15_000_000 };
+    let mon = MonDir::new(MonCfg { monitors: true, ..Default::default() });
+    let mut ex = match Exec::create(Box::new(mon.clone()), cfg, Some(mon.clone())) {
+        Ok(e) => e,
+        Err(e) => {
+            rep.violation("api-error:create", json!(e));
+            return;
+        }
+    };
+    rep.eval();
+    let mut g = HistGen::new();
+    let nseg = rng.urange(2, 4);
+    for _ in 0..nseg {
+        for _ in 0..rng.urange(2, 10) {
+            ex.step(&Op::Add(g.doc(rng, 2)));
+        }
+        ex.step(&Op::Commit);
+    }
+    let ids = ex.index.searchable_segment_ids().unwrap_or_default();
+    if ids.len() < 2 {
+        return;
+    }
+    let gate_merge = mon.add_gate(OpPred::kind(OpKind::OpenWrite).role("merge"), rng.below(5));
+    let fut = ex.writer.as_mut().unwrap().merge(&ids);
+    if !mon.wait_parked(gate_merge, Duration::from_secs(5)) {
+        mon.release_all_gates();
+        let _ = fut.wait();
+        rep.count("merge_during_commit:merge_gate_not_reached", 1);
+        return;
+    }
+    // the commit will be parked right before it replaces meta.json
+    let gate_commit = mon.add_gate(OpPred::kind(OpKind::AtomicWrite).role("updater").path("meta.json"), 0);
+    let mon2 = mon.clone();
+    let releaser = std::thread::Builder::new()
+        .name("tvmon-releaser".into())
+        .spawn(move || {
+            let parked = mon2.wait_parked(gate_commit, Duration::from_secs(10));
+            // the commit holds the updater thread: let the merge finish and queue its end behind it
+            mon2.release_gate(gate_merge);
+            let _ = mon2.wait_no_merge_in_flight(Duration::from_secs(10));
+            std::thread::sleep(Duration::from_millis(30));
+            mon2.release_gate(gate_commit);
+            parked
+        })
+        .expect("spawn");
+    ex.step(&Op::DeleteTerm(Pred::Grp(0)));
+    if rng.bool() {
+        ex.step(&Op::DeleteTerm(Pred::Grp(1)));
+    }
+    ex.step(&Op::Add(g.doc(rng, 2)));
+    ex.step(&Op::Commit);
+    let parked = releaser.join().unwrap_or(false);
+    mon.release_all_gates();
+    let outcome = match fut.wait() {
+        Ok(_) => "published",
+        Err(_) => "discarded",
+    };
+    rep.count(if parked { "merge_during_commit:commit_parked_at_its_meta_write" } else { "merge_during_commit:commit_gate_not_reached" }, 1);
+    rep.count(&format!("merge_during_commit:merge_{outcome}"), 1);
+    let mut errs = ex.check_committed(true);
+    ex.step(&Op::Add(g.doc(rng, 2)));
+    ex.step(&Op::Commit);
+    errs.extend(ex.check_committed(true));
+    for (sig, d) in ex.problems.drain(..) {
+        if !is_known("C02", &sig) {
+            errs.push((format!("live:{sig}"), d));
+        }
+    }
+    for v in mon.take_violations() {
+        errs.push((v.sig, v.detail));
+    }
+    for (sig, d) in errs {
+        rep.violation(format!("merge-during-commit:{sig}"), json!({"case": case, "merge": outcome, "detail": d}));
+    }
+    if parked {
+        rep.nontrivial(format!("merge-during-commit:nseg={nseg}:{outcome}"));
+    }
+}
+
+/// Forced schedule: two explicit merges over overlapping sets of segments ([a, b] and [c, b]) are
+/// in flight; the one that ends second finds one of its sources gone and has to be discarded -
+/// every document stays exactly once.
+fn overlapping_merges_case(case: u64, rng: &mut Rng, rep: &mut Report) {
+    let cfg = ExecCfg { threads: 1, merge_policy: false, sort: None, budget_per_thread: 15_000_000 };
+    let mon = MonDir::new(MonCfg { monitors: true, ..Default::default() });
+    let mut ex = match Exec::create(Box::new(mon.clone()), cfg, Some(mon.clone())) {
+        Ok(e) => e,
+        Err(e) => {
+            rep.violation("api-error:create", json!(e));
+            return;
+        }
+    };
+    rep.eval();
+    let mut g = HistGen::new();
+    let nseg = rng.urange(3, 5);
+    for _ in 0..nseg {
+        for _ in 0..rng.urange(2, 8) {
+            ex.step(&Op::Add(g.doc(rng, 3)));
+        }
+        ex.step(&Op::Commit);
+    }
+    let mut ids = ex.index.searchable_segment_ids().unwrap_or_default();
+    if ids.len() < 3 {
+        return;
+    }
+    rng.shuffle(&mut ids);
+    let (a, b, c) = (ids[0], ids[1], ids[2]);
+    // the first merge is parked; the shared segment is NOT the first of its list in half the cases
+    let first: Vec<SegmentId> = if rng.bool() { vec![a, b] } else { vec![b, a] };
+    let second: Vec<SegmentId> = if rng.bool() { vec![c, b] } else { vec![b, c] };
+    let gate = mon.add_gate(OpPred::kind(OpKind::OpenWrite).role("merge"), rng.below(5));
+    let fut1 = ex.writer.as_mut().unwrap().merge(&first);
+    if !mon.wait_parked(gate, Duration::from_secs(5)) {
+        mon.release_all_gates();
+        let _ = fut1.wait();
+        rep.count("overlapping_merges:gate_not_reached", 1);
+        return;
+    }
+    let r2 = ex.writer.as_mut().unwrap().merge(&second).wait();
+    mon.release_gate(gate);
+    mon.release_all_gates();
+    let r1 = fut1.wait();
+    rep.count(
+        &format!("overlapping_merges:second={}:first={}", if r2.is_ok() { "published" } else { "refused" }, if r1.is_ok() { "published" } else { "discarded" }),
+        1,
+    );
+    let mut errs = ex.check_committed(true);
+    ex.step(&Op::Add(g.doc(rng, 3)));
+    ex.step(&Op::Commit);
+    errs.extend(ex.check_committed(true));
+    for (sig, d) in ex.problems.drain(..) {
+        if !is_known("C02", &sig) {
+            errs.push((format!("live:{sig}"), d));
+        }
+    }
+    for (sig, d) in errs {
+        rep.violation(
+            format!("overlapping-merges:{sig}"),
+            json!({"case": case, "first_merge_ok": r1.is_ok(), "second_merge_ok": r2.is_ok(), "detail": d}),
+        );
+    }
+    rep.nontrivial(format!("overlapping-merges:nseg={nseg}:{}:{}", r1.is_ok(), r2.is_ok()));
+}
+
 fn main() {
     let ctx = Ctx::from_env("C04", "translation_validation");
     let mut rep = run_cases(&ctx, "explicit", ctx.scale(300, 20000) as u64, explicit_case);
@@ -602,6 +750,8 @@ fn main() {
     rep.merge(run_cases(&ctx, "forced", ctx.scale(150, 8000) as u64, forced_case));
     rep.merge(run_cases(&ctx, "policy", ctx.scale(200, 10000) as u64, policy_case));
     rep.merge(run_cases(&ctx, "stale-merge", ctx.scale(40, 2000) as u64, stale_merge_case));
+    rep.merge(run_cases(&ctx, "merge-during-commit", ctx.scale(40, 2000) as u64, merge_ends_during_commit_case));
+    rep.merge(run_cases(&ctx, "overlapping-merges", ctx.scale(40, 2000) as u64, overlapping_merges_case));
     let programs = rep.counters.get("merges_validated").copied().unwrap_or(0)
         + rep.counters.get("merge_indices_validated").copied().unwrap_or(0);
     let dis = rep.counters.get("disagreements").copied().unwrap_or(0);
